@@ -1,6 +1,6 @@
 ---------------------------- MODULE Gen_PathContain ----------------------------
 (* Stage (B) for C11: TLC enumerates the entry names of the grammar (every name of <= 3 components;  *)
-(* every 4-component name in thorough, a seed-rotated residue class of them in quick), classifies   *)
+(* every 4-component name in thorough, a seed-rotated residue class (1/8) of them in quick), classifies   *)
 (* them with the model, packs them into archives and crosses the archives with the option product   *)
 (* preserve-paths x patch chain x {whole archive, explicit names}.                                   *)
 (*                                                                                                  *)
@@ -13,7 +13,7 @@ EXTENDS PathContain, Json, IOUtils
 Thorough == IOEnv.VERIF_TIER = "thorough"
 SeedN == atoi(IOEnv.VERIF_SEED)
 GroupSize == 200
-Modulus == 24
+Modulus == 8
 
 Code(k) == CASE k = "P" -> 0 [] k = "D" -> 1 [] k = "E" -> 2 [] k = "a" -> 3 [] k = "C" -> 4 [] k = "L" -> 5 [] k = "U" -> 6
            [] k = "f" -> 0 [] k = "b" -> 1
@@ -28,7 +28,7 @@ Chosen == IF Thorough THEN Small \cup Four ELSE Small \cup {n \in Four : Hash(n)
 
 \* probe options for the classification: the answer must not depend on where `out` is or whether it exists
 ProbeOpt(pres) == [preserve |-> pres, explicit |-> TRUE, chain |-> FALSE, form |-> "rel", preout |-> FALSE]
-SelfErr(n)   == \E pres \in BOOLEAN : AbortsAlone(n.c, ProbeOpt(pres), FALSE)
+SelfErr(n)   == \E pres \in BOOLEAN : AbortsAlone(n.c, ProbeOpt(pres), Guard)
 HasRootN(n)  == HasRoot(n.c)
 HasParentN(n) == HasParentDir(n.c)
 
